@@ -49,3 +49,19 @@ Proof. intros Hk Hs. rewrite power_is_minus_lambda_Gu. unfold dotm. f_equal.
         * apply Nat.ltb_ge in E2. replace (Nat.ltb k0 (S j)) with false by (symmetry; apply Nat.ltb_ge; lia). lra. }
   rewrite (E m (le_n m)). replace (Nat.ltb k0 m) with true by (symmetry; apply Nat.ltb_lt; lia). reflexivity. Qed.
 End Power.
+
+(** ** enable / disable requests: the flag after any sequence of requests is the last request (the default if there was none) *)
+Theorem disabled_after_is_last_request default requests : disabled_after default requests = last requests default.
+Proof. unfold disabled_after. revert default. induction requests as [|r rs IH]; intros d; [reflexivity|].
+  cbn [fold_left]. rewrite IH. destruct rs as [|b rs]; [reflexivity|].
+  assert (E : forall (l:list bool) x y z, last (x :: l) y = last (x :: l) z).
+  { induction l as [|a l IHl]; intros x y z; [reflexivity|]. change (last (x :: a :: l) y) with (last (a :: l) y).
+    change (last (x :: a :: l) z) with (last (a :: l) z). apply IHl. }
+  change (last (r :: b :: rs) d) with (last (b :: rs) d). apply E. Qed.
+Theorem disabled_after_snoc default requests r : disabled_after default (requests ++ [r]) = r.
+Proof. unfold disabled_after. rewrite fold_left_app. reflexivity. Qed.
+(** in particular toggling back restores the default behaviour: disable then enable = enabled, whatever the default *)
+Theorem disable_then_enable_is_enabled default requests : disabled_after default (requests ++ [true; false]) = false.
+Proof. unfold disabled_after. rewrite fold_left_app. reflexivity. Qed.
+Theorem enable_then_disable_is_disabled default requests : disabled_after default (requests ++ [false; true]) = true.
+Proof. unfold disabled_after. rewrite fold_left_app. reflexivity. Qed.
